@@ -638,14 +638,27 @@ class CompletionMonitor : public Monitor {
   std::string prefix;  // C02 uses the same oracle for its clause 'otherwise it completes with an error'
 
   std::vector<int> inflight, completions;
+  std::vector<int> devAtEnqueue;   // adverse environment events seen when the request was handed over
   bool failed = false;
   void fail(const std::string& sig, const std::string& d) { if (!failed) sink->add(prefix + sig, d); failed = true; }
   std::string rq(int r) const { return "request #" + std::to_string(r) + " (" + ref::hex(w->sc.reqs[r].master) + ", " + (w->sc.reqs[r].kind == 2 ? "real PollRequest" : w->sc.reqs[r].kind == 1 ? "self-deleting" : "waited") + (w->sc.reqs[r].restarts ? ", restarting" : "") + ")"; }
-  void onEnqueue(int r) override { inflight[r]++; }
+  void onEnqueue(int r) override {
+    inflight[r]++;
+    if (devAtEnqueue.size() <= (size_t)r) devAtEnqueue.resize(r + 1, 0);
+    // handed over while the device is down (reopen failed): never 'undisturbed'
+    devAtEnqueue[r] = (w->tr != nullptr && w->tr->m_valid) ? w->devCount : -1;
+  }
+  bool undisturbed(int r) const { return (size_t)r < devAtEnqueue.size() && devAtEnqueue[r] == w->devCount; }
   void onNotify(int r, int result, const Bytes&, bool restart) override {
     if (failed) return;
     if (inflight[r] <= 0) { fail("completed-twice", rq(r) + " was notified (result " + std::to_string(result) + ") although it was not in flight"); return; }
     if (result == 1 || result == 2) { fail("indefinite-result", rq(r) + " completed with the non-result " + std::to_string(result)); return; }
+    // 'completes successfully iff the exchange was valid': with an environment that did nothing adverse since the
+    // request was handed over (conformant participants, no fault, no contender, no silence) the exchange is valid
+    if (result != 0 && undisturbed(r) && !w->sc.reqs[r].failsByScript && !w->sc.readOnly && !w->sc.unbounded) {
+      fail("failed-without-cause", rq(r) + " completed with error " + std::to_string(result) + " although the environment behaved conformantly since it was handed over");
+      return;
+    }
     if (!restart) { inflight[r]--; completions[r]++; }
   }
   bool inQueue(Queue<BusRequest*>& q, BusRequest* r, int* count = nullptr) {
@@ -695,7 +708,7 @@ class CompletionMonitor : public Monitor {
     }
   }
   void fingerprint(std::string* o) const override {
-    for (size_t i = 0; i < inflight.size(); i++) { o->push_back((char)inflight[i]); o->push_back((char)(completions[i] > 3 ? 3 : completions[i])); }
+    for (size_t i = 0; i < inflight.size(); i++) { o->push_back((char)inflight[i]); o->push_back((char)(completions[i] > 3 ? 3 : completions[i])); o->push_back((char)(inflight[i] > 0 && undisturbed((int)i))); }
     o->push_back((char)failed);
   }
 };
